@@ -7,6 +7,7 @@ CONSTANTS
   Parts = {0}
   Writers = {1}
   RSet = {3}
+  RmNodes = {}
   MaxEpoch = 6
   MaxID = 6
   G_OnePending = TRUE
@@ -19,8 +20,9 @@ CONSTANTS
   G_LeftRaft = TRUE
   G_CAS = TRUE
   G_Surplus = TRUE
+  G_Unlisted = TRUE
   CountCalls = FALSE
   MaxDown = 64
   MaxUnsynced = 64
 CONSTRAINT Bounded
-INVARIANTS C18_OneRemoving C18_QuorumDistinct C18_AddOneWhenInSync C18_IdsNeverReused C18_NoMarkUnreachable C18x_RoundKeepsInSync C18x_PlacementInputDistinct Aux_MembersKnown
+INVARIANTS C18_OneRemoving C18_QuorumDistinct C18_AddOneWhenInSync C18_IdsNeverReused C18_NoMarkUnreachable C18x_RoundKeepsInSync C18x_PlacementInputDistinct C18x_RemovableOnlyUnlisted Aux_MembersKnown
